@@ -23,6 +23,7 @@ import warnings
 import numpy
 
 from common import Check, Driver, Infra, sarpy_guard
+import c18rules
 import cphdgen
 import nitfparse
 import sargen
@@ -371,8 +372,10 @@ def consistent_cphd(rng, meta):
     return pvps
 
 
-def make_cphd(seed, tmpdir, consistent=True):
-    """one CPHD product, fully determined by `seed`"""
+def make_cphd(seed, tmpdir, consistent=True, text_len=None, support=None, vectors=None):
+    """one CPHD product, fully determined by its arguments.  `text_len`: length of CollectionID/CollectorName (free text: moves
+    the end of the XML block byte by byte); `support`: list of (rows, cols) replacing the drawn support arrays; `vectors`:
+    NumVectors of every channel (8 makes the PVP block a multiple of 64 bytes: no pad in front of the signal block)"""
     import c09
     rng = random.Random(seed)
     fmt = rng.choice(['CI2', 'CI4', 'CF8', 'CF8'])
@@ -380,13 +383,25 @@ def make_cphd(seed, tmpdir, consistent=True):
     sizes = [(rng.randint(2, 9), rng.randint(1, 6)) for _ in range(nch)]
     amp = rng.random() < 0.5
     sup = [(rng.randint(1, 4), rng.randint(1, 5)) for _ in range(rng.choice([0, 0, 1, 2]))]
+    if support is not None:
+        sup = [tuple(x) for x in support]
+    if vectors is not None:
+        sizes = [(vectors, ns) for _, ns in sizes]
     meta = cphdgen.build_meta(fmt, sizes, amp, sup, None, MINIMAL)
     pvp = consistent_cphd(rng, meta) if consistent else cphdgen.make_pvp(meta, rng)
-    raw, support = cphdgen.make_raw(meta, rng), cphdgen.make_support(meta, rng)
+    if text_len is not None:
+        meta.CollectionID.CollectorName = ('Collector' * (text_len // 9 + 1))[:text_len]
+    raw, support_arrays = cphdgen.make_raw(meta, rng), cphdgen.make_support(meta, rng)
     plan = {'mode': rng.choice(['file', 'pieces']), 'formatted': False, 'chunks': rng.random() < 0.5, 'order': rng.sample(['pvp', 'support', 'signal'], 3)}
-    buf = c09.write_case(rng, meta, pvp, raw, support, 'path', tmpdir, plan)
-    case = {'kind': 'cphd', 'seed': seed, 'consistent': consistent, 'fmt': fmt, 'sizes': sizes, 'amp_sf': amp, 'support': sup, 'plan': plan['mode']}
+    buf = c09.write_case(rng, meta, pvp, raw, support_arrays, 'path', tmpdir, plan)
+    case = {'kind': 'cphd', 'seed': seed, 'consistent': consistent, 'fmt': fmt, 'sizes': sizes, 'amp_sf': amp, 'support': sup, 'plan': plan['mode'],
+            'text_len': text_len, 'support_override': support, 'vectors': vectors}
     return {'buf': buf, 'meta': meta, 'case': case, 'cls': ('cphd', fmt, nch, amp, min(len(sup), 2), consistent)}
+
+
+def remake_cphd(pc, tmpdir):
+    """a product from the `case` dict of a replay file"""
+    return make_cphd(pc['seed'], tmpdir, pc.get('consistent', True), pc.get('text_len'), pc.get('support_override'), pc.get('vectors'))
 
 
 SICD_FAMILIES = ['full-pfa', 'full-rma', 'chip-pfa-novd', 'chip-pfa', 'chip-rma']
@@ -411,8 +426,83 @@ def sicd_meta(seed, family):
     return base, rng
 
 
-def make_sicd(seed, family, tmpdir):
+OTHER_XML = b'<?xml version="1.0"?><Notes xmlns="urn:example:notes:1.0"><Note>an XML document that is neither SICD nor SIDD</Note></Notes>'
+NON_XML = bytes(range(7, 200)) * 3
+
+
+def extra_des(kinds):
+    """additional DES segments a user may put in front of the SICD / SIDD DES: 'user' = user-defined DES with a binary payload,
+    'xml' = an XML_DATA_CONTENT DES that carries some other XML document"""
+    from sarpy.io.general.nitf import DESSubheaderManager
+    from sarpy.io.general.nitf_elements.des import DataExtensionHeader, XMLDESSubheader
+    out = []
+    for k in kinds or []:
+        if k == 'user':
+            out.append(DESSubheaderManager(DataExtensionHeader(DESID='MY_OWN_DES', DESVER=1), NON_XML))
+        else:
+            uh = XMLDESSubheader(DESSHSI='urn:example:notes', DESSHSV='1.0', DESSHSD='2020-01-01T00:00:00Z', DESSHTN='urn:example:notes:1.0',
+                                 DESSHDT='2020-01-01T00:00:00Z')
+            out.append(DESSubheaderManager(DataExtensionHeader(UserHeader=uh), OTHER_XML))
+    return out or None
+
+
+RADIOMETRIC_POLYS = ['RCSSFPoly', 'SigmaZeroSFPoly', 'BetaZeroSFPoly', 'GammaZeroSFPoly']
+# optional parts of a SICD whose absence is unconditionally legal (schema minOccurs = 0, no conditional requirement): the
+# validation rules branch on their presence.  NOT in the list, on purpose: RadarCollection.Area (required by the 1.x schemas),
+# Grid.*.DeltaKCOAPoly and the ValidData pair (DeltaK1/2 are estimated from them: removing them from a document whose DeltaK values were
+# computed with them is not a neutral change), the image formation choice blocks PFA / RMA / RgAzComp.
+SICD_OPTIONAL = ['CollectionInfo.CollectType', 'ImageCreation', 'ImageCreation.Application', 'ImageCreation.DateTime', 'Timeline.IPP', 'Position.GRPPoly',
+                 'Position.TxAPCPoly', 'Position.RcvAPC', 'RadarCollection.Waveform', 'RadarCollection.Area.Plane', 'ImageFormation.Processings',
+                 'Radiometric', 'Radiometric.NoiseLevel', 'Antenna', 'Antenna.Tx', 'Antenna.Rcv', 'Antenna.TwoWay', 'Antenna.Tx.EB', 'Antenna.Tx.Elem',
+                 'Antenna.Tx.GainBSPoly', 'Antenna.Rcv.EB', 'Antenna.Rcv.Elem', 'Antenna.TwoWay.EB', 'Antenna.TwoWay.GainBSPoly']
+
+
+def set_radiometric(meta, subset, noise=True):
+    """all four scale-factor polynomials derived by sarpy's own RadiometricType._derive_parameters, then only `subset` kept"""
+    rad = meta.Radiometric
+    rad._derive_parameters(meta.Grid, meta.SCPCOA)
+    for name in RADIOMETRIC_POLYS:
+        if name not in subset:
+            setattr(rad, name, None)
+    if not noise:
+        rad.NoiseLevel = None
+
+
+def drop_optional(meta, paths):
+    done = []
+    for path in paths:
+        if path == 'ValidData':
+            if meta.ImageData.ValidData is not None or meta.GeoData.ValidData is not None:
+                meta.ImageData.ValidData = None
+                meta.GeoData.ValidData = None
+                done.append(path)
+            continue
+        o = meta
+        parts = path.split('.')
+        for q in parts[:-1]:
+            o = getattr(o, q, None)
+            if o is None:
+                break
+        if o is not None and getattr(o, parts[-1], None) is not None:
+            setattr(o, parts[-1], None)
+            done.append(path)
+    return done
+
+
+def sicd_variant(base, radiometric=None, noise=True, drops=()):
+    """the example document `base` ('pfa' | 'rma') with a chosen set of optional parts"""
+    meta = sargen.base_sicd(base)
+    if radiometric is not None:
+        set_radiometric(meta, radiometric, noise)
+    done = drop_optional(meta, drops)
+    return meta, done
+
+
+def make_sicd(seed, family, tmpdir, extra=None, radiometric=None, drops=()):
     meta, rng = sicd_meta(seed, family)
+    if radiometric is not None and meta.Radiometric is not None:
+        set_radiometric(meta, radiometric)
+    dropped = drop_optional(meta, drops)
     rows, cols = meta.ImageData.NumRows, meta.ImageData.NumCols
     nrng = numpy.random.default_rng(rng.getrandbits(63))
     scale = 100.0 if meta.ImageData.PixelType != 'AMP8I_PHS8I' else 1.0
@@ -420,12 +510,13 @@ def make_sicd(seed, family, tmpdir):
     nseg = rng.choice([1, 1, 2, 3])
     row_limit = None if nseg == 1 else max(1, -(-rows // nseg))
     chunks = sargen.row_chunks(rng, rows, 3)
-    buf, det = sargen.write_sicd(meta, data, 'path', tmpdir, row_limit=row_limit, chunks=chunks, name='c18.nitf')
-    case = {'kind': 'sicd', 'seed': seed, 'family': family, 'rows': rows, 'cols': cols, 'pixel_type': meta.ImageData.PixelType, 'row_limit': row_limit}
-    return {'buf': buf, 'meta': meta, 'case': case, 'cls': ('sicd', family, meta.ImageData.PixelType, nseg)}
+    buf, det = sargen.write_sicd(meta, data, 'path', tmpdir, row_limit=row_limit, chunks=chunks, name='c18.nitf', additional_des=extra_des(extra))
+    case = {'kind': 'sicd', 'seed': seed, 'family': family, 'rows': rows, 'cols': cols, 'pixel_type': meta.ImageData.PixelType, 'row_limit': row_limit,
+            'extra_des': list(extra or []), 'radiometric': radiometric, 'drops': list(drops), 'dropped': dropped}
+    return {'buf': buf, 'meta': meta, 'case': case, 'cls': ('sicd', family, meta.ImageData.PixelType, nseg, tuple(extra or []), radiometric is not None, bool(dropped))}
 
 
-def make_sidd(seed, tmpdir, force_first=None):
+def make_sidd(seed, tmpdir, force_first=None, extra=None):
     rng = random.Random(seed)
     n = rng.choice([1, 1, 2])
     metas, datas = [], []
@@ -439,10 +530,22 @@ def make_sidd(seed, tmpdir, force_first=None):
     with_sicd = rng.random() < 0.5
     sicd = sargen.base_sicd(rng.choice(['pfa', 'rma'])) if with_sicd else None
     row_limit = rng.choice([None, None, 11])
-    buf, det = sargen.write_sidd(metas, datas, 'path', tmpdir, row_limit=row_limit, sicd_meta=sicd, name='c18s.nitf')
+    if extra:
+        from sarpy.io.product.sidd import SIDDWriter, SIDDWritingDetails
+        det = SIDDWritingDetails([m.copy() for m in metas], sicd, row_limit=row_limit, additional_des=extra_des(extra))
+        path = os.path.join(tmpdir, 'c18s.nitf')
+        if os.path.exists(path):
+            os.remove(path)
+        w = SIDDWriter(path, sidd_writing_details=det, check_existence=False)
+        for i, d in enumerate(datas):
+            w.write(d, start_indices=(0, 0) if d.ndim == 2 else (0, 0, 0), index=i)
+        w.close()
+        buf = open(path, 'rb').read()
+    else:
+        buf, det = sargen.write_sidd(metas, datas, 'path', tmpdir, row_limit=row_limit, sicd_meta=sicd, name='c18s.nitf')
     pts = [m.Display.PixelType for m in metas]
-    case = {'kind': 'sidd', 'seed': seed, 'pixel_types': pts, 'with_sicd': with_sicd, 'row_limit': row_limit, 'force_first': force_first}
-    return {'buf': buf, 'metas': metas, 'case': case, 'cls': ('sidd', tuple(pts), with_sicd, row_limit is not None)}
+    case = {'kind': 'sidd', 'seed': seed, 'pixel_types': pts, 'with_sicd': with_sicd, 'row_limit': row_limit, 'force_first': force_first, 'extra_des': list(extra or [])}
+    return {'buf': buf, 'metas': metas, 'case': case, 'cls': ('sidd', tuple(pts), with_sicd, row_limit is not None, tuple(extra or []))}
 
 
 # ======================================================================================================================
@@ -679,6 +782,37 @@ def m_pvp_overlap(prod, rng):
     return cphd_xml_mut(prod['buf'], edit)
 
 
+def m_dup_second(path):
+    """the second element at `path` gets the text of the first"""
+    def edit(root, q):
+        els = root.findall(q(path))
+        els[1].text = els[0].text
+    return edit
+
+
+def m_poly_exponent(root, q):
+    p = root.find(q('Dwell/CODTime/CODTimePoly'))
+    c = p.findall(q('Coef'))[-1]
+    c.set('exponent1', str(int(p.get('order1')) + 1))
+
+
+def m_poly_dup_coef(root, q):
+    import copy
+    p = root.find(q('Dwell/DwellTime/DwellTimePoly'))
+    p.append(copy.deepcopy(p.findall(q('Coef'))[0]))
+
+
+def m_swap_area(root, q):
+    a = root.find(q('SceneCoordinates/ImageArea'))
+    e1, e2 = a.find(q('X1Y1/X')), a.find(q('X2Y2/X'))
+    e1.text, e2.text = e2.text, e1.text
+
+
+def m_remove_corner(root, q):
+    el = root.find(q('SceneCoordinates/ImageAreaCornerPoints'))
+    el.remove(list(el)[-1])
+
+
 CPHD_REQUIRED = ['CollectionID/CoreName', 'Global/SGN', 'SceneCoordinates/EarthModel', 'ReferenceGeometry/SRPCODTime',
                  'Channel/Parameters/Polarization', 'Data/NumBytesPVP', 'Dwell/NumCODTimes']
 
@@ -687,7 +821,9 @@ CPHD_MUTATIONS = [
          lean='mutation_sigsize_falsifies_signalAtEof',
          apply=lambda p, r: cphd_patch_header(p['buf'], {'SIGNAL_BLOCK_SIZE': lambda v: v + 1})),
     dict(name='cphd_truncated', rule='signal block ends at the end of the file (file truncated)', expect=['check_signal_at_end_of_file'],
-         lean='mutation_truncate_falsifies_signalAtEof', apply=lambda p, r: p['buf'][:-r.randint(1, 8)]),
+         lean='mutation_truncate_falsifies_signalAtEof',
+         # inside the signal block: cutting into the PVP block is another violation (probe cphd_truncated_into_pvp, NOTES_C18X section 8)
+         apply=lambda p, r: p['buf'][:-r.randint(1, min(8, int(cphdgen.parse_header(p['buf'])[2]['SIGNAL_BLOCK_SIZE'])))]),
     dict(name='cphd_trailing_bytes', rule='signal block ends at the end of the file (bytes appended)', expect=['check_signal_at_end_of_file'],
          lean='mutation_filelen_falsifies_signalAtEof', apply=lambda p, r: p['buf'] + b'\0' * r.randint(1, 64)),
     dict(name='cphd_sig_offset_into_pvp', rule='SIGNAL block comes after the PVP block', expect=['check_pad_after_pvp'],
@@ -731,6 +867,23 @@ CPHD_MUTATIONS = [
          apply=lambda p, r: cphd_xml_mut(p['buf'], set_text('Global/Timeline/TxTime2', lambda t: repr(float(t) + 1.0)))),
     dict(name='cphd_refgeom_slantrange', rule='ReferenceGeometry SlantRange = |ARP - SRP|', expect=['check_refgeom_monostatic'],
          apply=lambda p, r: cphd_xml_mut(p['buf'], set_text('ReferenceGeometry/Monostatic/SlantRange', lambda t: repr(float(t) * 1.01)))),
+    dict(name='cphd_dwell_ref_dangling', rule='/Dwell/CODTime with the Identifier a channel names exists', expect=['check_channel_dwell_exist'],
+         lean='mutation_dangling_falsifies_refsExist',
+         apply=lambda p, r: cphd_xml_mut(p['buf'], set_text('Channel/Parameters/DwellTimes/CODId', lambda t: t + 'x'))),
+    dict(name='cphd_support_id_duplicate', rule='Identifiers of Data/SupportArray are unique', expect=['check_identifier_uniqueness'],
+         lean='mutation_duplicate_falsifies_unique', applies=lambda p: len(p['case']['support']) >= 2,
+         apply=lambda p, r: cphd_xml_mut(p['buf'], m_dup_second('Data/SupportArray/Identifier'))),
+    dict(name='cphd_dwell_id_duplicate', rule='Identifiers of Dwell/CODTime are unique (a second CODTime with the same Identifier)', expect=['check_identifier_uniqueness'],
+         lean='mutation_duplicate_falsifies_unique',
+         apply=lambda p, r: cphd_xml_mut(p['buf'], lambda root, q: root.find(q('Dwell/CODTime')).addnext(__import__('copy').deepcopy(root.find(q('Dwell/CODTime')))))),
+    dict(name='cphd_poly_exponent_above_order', rule='polynomial coefficient exponents do not exceed the order', expect=['check_polynomials'],
+         lean='mutation_exponent_falsifies_polyOk', apply=lambda p, r: cphd_xml_mut(p['buf'], m_poly_exponent)),
+    dict(name='cphd_poly_duplicate_coef', rule='polynomial coefficient exponents are not repeated', expect=['check_polynomials'],
+         lean='mutation_duplicate_coef_falsifies_polyOk', apply=lambda p, r: cphd_xml_mut(p['buf'], m_poly_dup_coef)),
+    dict(name='cphd_corner_point_removed', rule='4 image area corner points', expect=['check_image_area_corner_points'],
+         lean='mutation_corner_falsifies_fourCorners', apply=lambda p, r: cphd_xml_mut(p['buf'], m_remove_corner)),
+    dict(name='cphd_image_area_swapped', rule='SceneCoordinates/ImageArea X1Y1 < X2Y2', expect=['check_imagearea_x1y1_x2y2'],
+         lean='mutation_swap_falsifies_boxOrdered', apply=lambda p, r: cphd_xml_mut(p['buf'], m_swap_area)),
     dict(name='cphd_pad_nonzero', rule='pad between header and XML is zero (documented as a warning)', expect=['check_pad_header_xml'], level='Warning', apply=m_pad_nonzero),
 ]
 
@@ -836,6 +989,22 @@ def m_nbpp(p, r):
     return p['buf'][:pos] + new + p['buf'][pos + 2:]
 
 
+def m_isubcat(both):
+    """band subcategory codes of the first image segment altered: the second one only, or both"""
+    def f(p, r):
+        so, sl, do, dl = seg_ranges(p['buf'], 'image')[0]
+        sub = p['buf'][so:so + sl]
+        m = re.search(rb'2  ([IM])     N   0  ([QP])     N   0', sub)
+        if not m:
+            raise ValueError('band section of the image subheader not found')
+        new = bytearray(sub)
+        new[m.start(2)] = ord('Y')
+        if both:
+            new[m.start(1)] = ord('X')
+        return p['buf'][:so] + bytes(new) + p['buf'][so + sl:]
+    return f
+
+
 def m_xml_file(kind, tag):
     """stand-alone XML document with a required element removed"""
     def f(p, r):
@@ -860,6 +1029,8 @@ NITF_MUTATIONS = [
     dict(name='sicd_pixel_type_vs_image', kind='sicd', rule='image segment NBPP / PVTYPE agree with ImageData.PixelType', apply=m_sicd_pixel_type),
     dict(name='sicd_nbpp_vs_pixel_type', kind='sicd', rule='image segment NBPP agrees with ImageData.PixelType (subheader altered)', apply=m_nbpp),
     dict(name='sicd_icat', kind='sicd', rule='image segment ICAT is SAR', apply=m_image_field(b'SAR     ', b'VIS     ')),
+    dict(name='sicd_isubcat_both_bands', kind='sicd', rule='image segment bands have ISUBCAT (I, Q) / (M, P) (both codes altered)',
+         lean='mutation_both_bands_falsify_sicdSegOk', apply=m_isubcat(True)),
     dict(name='sicd_numrows_vs_pixels', kind='sicd', rule='ImageData.NumRows agrees with the pixel data (image segment rows)', apply=m_sicd_numrows),
     dict(name='sicd_xml_required_element_removed', kind='sicd', rule='stand-alone XML validates against the schema', xml_file=True, apply=m_xml_file('sicd', 'CollectionInfo/CoreName')),
     dict(name='sidd_desshtn_mismatch', kind='sidd', rule='DES.DESSHTN agrees with the XML namespace', lean='mutation_desshtn_falsifies_desRule',
@@ -875,6 +1046,14 @@ NITF_MUTATIONS = [
 NITF_PROBES = [
     dict(name='nitf_fl_plus1', what='file header FL larger than the file', lean='mutation_fl_falsifies_flRule'),
     dict(name='nitf_truncated', what='last byte of the file removed', lean='mutation_truncate_falsifies_flRule'),
+    # the SICD checker words its band rule `b0 != X and b1 != Y`: one wrong code is accepted although the message documents the pair
+    # (theorem sicd_band_rule_accepts_one_wrong_code); reported, see NOTES_C18X
+    # root element and namespace of the SICD DES renamed: no SICD DES is left, check_file documents a ValueError for that (model: sicdScan = none)
+    dict(name='sicd_des_root_renamed', what='root element and namespace of the SICD DES renamed (no SICD DES left)', lean='mutation_no_sicd_des_falsifies_sicdScan',
+         apply=lambda p, r: (lambda so, sl, do, dl: p['buf'][:do] + p['buf'][do:do + dl].replace(b'<SICD', b'<SICX').replace(b'</SICD', b'</SICX').replace(b'"urn:SICD:', b'"urn:SICX:')
+                             + p['buf'][do + dl:])(*des_of(p['buf'], b'SICD'))),
+    dict(name='sicd_isubcat_one_band', what='ISUBCAT of the second band altered (first one correct)', lean='sicd_band_rule_accepts_one_wrong_code',
+         apply=m_isubcat(False)),
 ]
 
 
@@ -997,9 +1176,14 @@ def run(tier):
     sarpy_guard()
     chk = Check('C18', tier)
     rng = chk.rng
-    broken = chk.prove(['SarpyModel.Props.C18', 'SarpyModel.Drivers'], 'SarpyModel.Props.C18', 'Sarpy.Props.C18', REQUIRED)
+    gen_info = c18rules.regen()         # Gen/CheckerRules.lean from the current checker sources
+    broken = chk.prove(['SarpyModel.Props.C18', 'SarpyModel.Drivers'], 'SarpyModel.Props.C18', 'Sarpy.Props.C18', REQUIRED, gen_info)
+    b2, broken_rules = c18rules.prove(chk, gen_info)
+    broken += b2
     quick = tier == 'quick'
-    drv = Driver()
+    drv = Driver()                      # reference models (Spec only)
+    gen_drv = Driver()                  # regenerated rules (Gen): kept apart so that a rule that no longer translates costs only this driver
+    book = c18rules.RuleBook(drv, gen_drv)
     fails, disagreements, seen, stats = [], [], set(), {}
     bump = lambda k, n=1: stats.__setitem__(k, stats.get(k, 0) + n)
     samples = []
@@ -1046,7 +1230,11 @@ def run(tier):
                 got = [detail_passed(r['all'], k, 'Channel signal fits in signal block') for k in r['all'] if k.startswith('check_channel_signal_data')]
                 if len(got) == nch and None not in got:
                     rule_jobs.append(('sigfits', drv.ask(sl), (tag, all(got))))
+            if not r['crash']:
+                obs, lobs = c18rules.cphd_file_observations(buf)
+                book.add(obs, lobs, r['all'], {'input': 'cphd-file', 'case': tag})
         else:
+            nitf_rule_jobs(kind, buf, r, tag)
             line = des_model_line(kind, buf)
             if line and not r['crash']:
                 msg = any(re.search(r'DES\.DESSH(TN|SV)', e) for e in r.get('all_errors', r['errors']))
@@ -1054,6 +1242,49 @@ def run(tier):
             line = fl_model_line(buf)
             if line:
                 rule_jobs.append(('fl', drv.ask(line), (tag, len(buf))))
+
+    def nitf_rule_jobs(kind, buf, r, tag):
+        """image-segment rules of the SICD / SIDD checkers: reference rule on independently parsed subheaders vs what was logged"""
+        kinds = c18rules.nitf_des_kinds(buf)
+        if kinds is not None and kind == 'sicd':
+            n_sicd = sum(1 for k in kinds if k in ('sicd', 'oldsicd'))
+            want = n_sicd == 1 and not any(k in ('sidd', 'oldsidd') for k in kinds)      # exactly one SICD DES, no SIDD DES
+            refused = bool(r['crash']) and ('SICD DES' in r['crash'] or 'should be a SIDD file' in r['crash'])
+            bump('des_scan_' + ('found' if want else 'refused'))
+            seen.add(('des-scan', tuple(kinds)))
+            if want == refused:
+                fails.append({'kind': 'nitf-rule', 'key': 'rule:sicd_des_scan:' + ('rejects-valid' if want else 'accepts-invalid'),
+                              'msg': f'DES scan of check_sicd_file: the data extensions are {kinds} (exactly one SICD DES: {want}) but the checker '
+                                     f'{"raised " + r["crash"][:120] if refused else "went on"}', 'case': tag if 'kind' in tag or 'product' in tag else {'product': tag}})
+            rule_jobs.append(('desscan', drv.ask('chkspec desscan ' + (','.join(kinds) or '-')), (tag, kinds, want)))
+        if r['crash']:
+            return
+        nl = c18rules.nitf_image_lines(kind, buf)
+        if nl is None:
+            return
+        logged = r.get('all_errors', r['errors'])
+        if kind == 'sicd':
+            img_err = any('image segment at index' in e for e in logged)
+        else:
+            img_err = any(re.search(r'image segment at index \d+ of \d+ has (PVTYPE|NBPP)', e) for e in logged)
+        want = all(nl['oracle'])
+        bump('nitf_image_rule_' + ('holds' if want else 'violated'))
+        if want == img_err:
+            fails.append({'kind': 'nitf-rule', 'key': f'rule:{kind}_image_segments:' + ('rejects-valid' if want else 'accepts-invalid'),
+                          'msg': f'{kind} image-segment rule (ICAT / PVTYPE / NBPP / bands vs pixel type {nl["pixel_type"]}): the documented rule '
+                                 f'{"holds" if want else "is violated"} on the parsed subheaders but the checker {"logged" if img_err else "did not log"} an image segment error',
+                          'case': tag if 'kind' in tag or 'product' in tag else {'product': tag}})
+        rule_jobs.append(('imgseg', [drv.ask(l) for l in nl['lines']], (tag, nl['oracle'], nl['lines'])))
+        if nl['size_line']:
+            size_msg = any('SICDReader construction failed' in e for e in logged)
+            if not nl['size_oracle'] and want and r['verdict']:
+                fails.append({'kind': 'nitf-rule', 'key': 'rule:sicd_size:accepts-invalid',
+                              'msg': 'SICD ImageData.NumRows x NumCols disagree with the reassembled image segments but the checker accepts the file', 'case': tag})
+            if nl['size_oracle'] and size_msg and 'mutation' not in tag:
+                fails.append({'kind': 'nitf-rule', 'key': 'rule:sicd_size:rejects-valid',
+                              'msg': 'SICD sizes agree with the image segments but SICDReader construction failed inside the checker', 'case': tag})
+            bump('nitf_size_rule_' + ('holds' if nl['size_oracle'] else 'violated'))
+            rule_jobs.append(('sizerule', drv.ask(nl['size_line']), (tag, nl['size_oracle'], nl['size_line'])))
 
     def do_product(kind, prod, family):
         ext = 'cphd' if kind == 'cphd' else 'nitf'
@@ -1112,6 +1343,17 @@ def run(tier):
             prod = make_cphd(rng.getrandbits(40), tmpdir)
             do_product('cphd', prod, 'cphd')
             do_mutations(CPHD_MUTATIONS, prod)
+            if _ < 2:
+                # probe (reported, never a failure): the file cut inside the PVP block - the constructor of the checker reads the PVP arrays
+                # before any rule runs (same root cause as the listed finding crash:cphd_numvectors_plus1)
+                kv = cphdgen.parse_header(prod['buf'])[2]
+                path = os.path.join(tmpdir, 'probe.cphd')
+                with open(path, 'wb') as f:
+                    f.write(prod['buf'][:int(kv['PVP_BLOCK_BYTE_OFFSET']) + int(kv['PVP_BLOCK_SIZE']) - 1])
+                rr = run_cphd_checker(path)
+                key = 'crash' if rr['crash'] else ('flagged' if rr['errors'] else 'unflagged')
+                stats.setdefault('probes', {}).setdefault('cphd_truncated_into_pvp', {}).setdefault(key, 0)
+                stats['probes']['cphd_truncated_into_pvp'][key] += 1
         # structural rules on products whose PVP content is arbitrary (content rules do not apply)
         for _ in range(10 if quick else 100):
             prod = make_cphd(rng.getrandbits(40), tmpdir, consistent=False)
@@ -1128,17 +1370,112 @@ def run(tier):
                 if bad:
                     fails.append({'kind': 'product', 'key': 'reject:cphd-structural', 'msg': f'cphd checker flags a structural rule on a file sarpy wrote: {json.dumps(bad)[:400]}', 'case': prod['case']})
                 model_jobs('cphd', prod['buf'], r, prod['case'])
+        # ---- (a) the end of the XML block on every residue mod 64: one template per sweep, 64 consecutive lengths of the free text
+        def sweep(with_support, label):
+            sseed, base = rng.getrandbits(40), rng.randint(0, 30)
+            pads = set()
+            for k in range(64):
+                prod = make_cphd(sseed, tmpdir, True, base + k, [(4, 4)] if with_support else [], 8 if with_support else None)
+                kv = cphdgen.parse_header(prod['buf'])[2]
+                pad = -(int(kv['XML_BLOCK_BYTE_OFFSET']) + int(kv['XML_BLOCK_SIZE']) + 2) % 64
+                pads.add(pad)
+                prod['case']['pad_after_xml'] = pad
+                do_product('cphd', prod, 'cphd-sweep')
+            seen.add(('sweep', with_support, len(pads)))
+            stats[f'sweep_{label}_pads'] = len(pads)
+            bump('sweep_files', 64)
+        for _ in range(1 if quick else 3):
+            sweep(True, 'support')
+            sweep(False, 'nosupport')
+
+        # ---- (b) header patches at the boundary of every block-order rule (just holds / just fails), on real products
+        def boundary(prod):
+            for rule, patch in c18rules.boundary_patches(prod['buf']):
+                try:
+                    b = cphd_patch_header(prod['buf'], remove=(patch['-'],)) if '-' in patch else cphd_patch_header(prod['buf'], patch)
+                except ValueError:
+                    continue
+                path = os.path.join(tmpdir, 'bnd.cphd')
+                with open(path, 'wb') as f:
+                    f.write(b)
+                allr, crash = c18rules.run_selected(path, c18rules.HEADER_CHECKS)
+                bump('boundary_files')
+                if crash:
+                    bump('boundary_constructor_raised')
+                    continue
+                obs, lobs = c18rules.cphd_file_observations(b)
+                book.add(obs, lobs, allr, {'input': 'header-patch', 'product': prod['case'], 'patch': patch, 'aimed_at': rule})
+                seen.add(('boundary', rule, 'SUPPORT_BLOCK_BYTE_OFFSET' in cphdgen.parse_header(b)[2]))
+        for i in range(3 if quick else 30):
+            boundary(make_cphd(rng.getrandbits(40), tmpdir, False, None, [(2, 2)] if i % 2 == 0 else []))
+
+        # ---- (c) XML documents edited around every modelled rule, through CphdConsistency.from_file on the XML file
+        def xml_cases(n, ops=None):
+            for _ in range(n):
+                template = rng.choice(c18rules.TEMPLATES)
+                edits = [rng.choice(ops or c18rules.EDITS) for _ in range(rng.choice([0, 1, 1, 2, 3]))]
+                eseed = rng.getrandbits(40)
+                xml, done = c18rules.edited_xml(template, edits, eseed)
+                path = os.path.join(tmpdir, 'case.xml')
+                with open(path, 'wb') as f:
+                    f.write(xml)
+                allr, crash = c18rules.run_selected(path, c18rules.XML_CHECKS)
+                bump('xml_cases')
+                case = {'input': 'xml-document', 'template': template, 'edits': edits, 'edit_seed': eseed, 'applied': done}
+                if crash:
+                    bump('xml_constructor_raised')
+                    if not done:
+                        fails.append({'kind': 'rule', 'key': 'crash:xml-template', 'msg': f'CphdConsistency.from_file raised on the unedited document {template}: {crash}', 'case': case})
+                    continue
+                obs, lobs, _ = c18rules.xml_observations(xml)
+                book.add(obs, lobs, allr, case)
+                seen.add(('xml', template, tuple(sorted(set(e.split(':')[0] for e in done)))))
+        xml_cases(150 if quick else 3000)
+        # the want "XML appears early" cannot be reached with a real file (XML offset 2^28): header dictionaries given to the constructor
+        from lxml import etree
+        from sarpy.consistency.cphd_consistency import CphdConsistency
+        for v in (2 ** 28 - 1, 2 ** 28, 2 ** 28 + 64):
+            cc = CphdConsistency(etree.fromstring(c18rules.template_bytes(c18rules.TEMPLATES[0])), None, {'XML_BLOCK_BYTE_OFFSET': v}, None)
+            cc.check(['check_pad_header_xml'])
+            book.add([dict(rule='xml_early', ints=[v], bools=[], check='check_pad_header_xml', text='XML appears early in the file')], [], cc.all(),
+                     {'input': 'header-dict', 'header': {'XML_BLOCK_BYTE_OFFSET': v}})
+
+        # ---- search: an obligation broke or a rule-level comparison failed -> widen around it
+        if broken_rules or book.fails:
+            implicated = broken_rules | {f['key'].split(':')[1] for f in book.fails}
+            stats['search_widened_for'] = sorted(implicated)
+            if implicated & c18rules.HEADER_RULES:
+                sweep(True, 'support')
+                sweep(False, 'nosupport')
+                for i in range(6):
+                    boundary(make_cphd(rng.getrandbits(40), tmpdir, False, None, [(2, 2)] if i % 2 == 0 else []))
+            if implicated - c18rules.HEADER_RULES - {'sicd_pixels', 'sidd_pixels', 'sicd_urns', 'sidd_urns'} or implicated & {'severities', 'guards'}:
+                aimed = sorted({e for rl in implicated for k, v in c18rules.RULE_EDITS.items() if rl.startswith(k) for e in v})
+                xml_cases(300, aimed or None)
+                xml_cases(100)
+
         plan = [('full-pfa', 3, 0), ('full-rma', 3, 0), ('chip-pfa-novd', 8, 4), ('chip-pfa', 2, 0), ('chip-rma', 2, 0)] if quick else \
                [('full-pfa', 6, 0), ('full-rma', 6, 0), ('chip-pfa-novd', 60, 30), ('chip-pfa', 10, 0), ('chip-rma', 10, 0)]
+        EXTRA = [None, ['user'], ['xml', 'user'], ['user', 'xml'], ['xml'], None]
         for family, count, nmut in plan:
             for i in range(count):
-                prod = make_sicd(rng.getrandbits(40), family, tmpdir)
+                # additional DES segments in front of the SICD DES (every second product, mutated ones included); for the small
+                # products also a random subset of the radiometric polynomials and of the other optional parts
+                small = family.startswith('chip')
+                sub = [n for n in RADIOMETRIC_POLYS if rng.random() < 0.5] or [rng.choice(RADIOMETRIC_POLYS)]
+                prod = make_sicd(rng.getrandbits(40), family, tmpdir, EXTRA[(i + 1) % len(EXTRA)] if small else (['user'] if i == 1 else None),
+                                 sub if small and i % 2 == 1 else None, rng.sample(SICD_OPTIONAL, rng.randint(0, 2)) if small and i % 3 == 2 else ())
                 r = do_product('sicd', prod, 'sicd:' + family)
                 if i < nmut and not r['crash'] and r['verdict']:
                     do_mutations(NITF_MUTATIONS, prod, 'sicd')
                     for pr in NITF_PROBES:
                         b = prod['buf']
-                        if pr['name'] == 'nitf_truncated':
+                        if 'apply' in pr:
+                            try:
+                                b = pr['apply'](prod, rng)
+                            except ValueError:
+                                continue
+                        elif pr['name'] == 'nitf_truncated':
                             b = b[:-1]
                         else:
                             h = nitfparse.parse_file_header(b)
@@ -1153,12 +1490,42 @@ def run(tier):
                         stats.setdefault('probes', {}).setdefault(pr['name'], {}).setdefault(key, 0)
                         stats['probes'][pr['name']][key] += 1
                         line = fl_model_line(b)
-                        if line:
+                        if line and 'apply' not in pr:
                             rule_jobs.append(('fl-mutant', drv.ask(line), (pr['name'], len(b))))
+                        if 'apply' in pr:
+                            rr.setdefault('errors', [])
+                            nitf_rule_jobs('sicd', b, rr, {'probe': pr['name'], 'product': prod['case']})
+        # ---- SICD documents with every subset of the optional parts the validation rules branch on (a crash is a violation)
+        def sicd_document(base, radiometric, noise, drops):
+            meta, done = sicd_variant(base, radiometric, noise, drops)
+            case = {'kind': 'sicd-xml', 'base': base, 'radiometric': radiometric, 'noise': noise, 'drops': list(drops), 'dropped': done}
+            path = os.path.join(tmpdir, 'variant.xml')
+            with open(path, 'wb') as f:
+                f.write(meta.to_xml_bytes())
+            r = run_nitf_checker('sicd', path)
+            bump('products_sicd_xml')
+            seen.add(('sicd-xml', base, tuple(radiometric or ()), tuple(done)))
+            what = 'radiometric subset ' + '+'.join(radiometric) if radiometric is not None else 'optional parts removed: ' + ', '.join(done)
+            if r['crash']:
+                fails.append({'kind': 'product', 'key': 'crash:product:sicd-xml', 'msg': f'sicd checker raised on a valid SICD document ({what}): {r["crash"]}', 'case': case})
+            elif not r['verdict']:
+                fails.append({'kind': 'product', 'key': 'reject:sicd-xml:' + ('radiometric' if radiometric is not None else 'optional'),
+                              'msg': f'sicd checker rejects a valid SICD document ({base} example, {what}): {json.dumps(r["errors"])[:400]}', 'case': case})
+            else:
+                bump('accepted_sicd_xml')
+        for base in ('pfa', 'rma'):
+            for k in range(1, 16):          # all 15 non-empty subsets of the four scale-factor polynomials, with / without NoiseLevel
+                sicd_document(base, [n for j, n in enumerate(RADIOMETRIC_POLYS) if k >> j & 1], k % 2 == 0, ())
+            for path in SICD_OPTIONAL:      # every optional part removed alone
+                sicd_document(base, None, True, [path])
+        for _ in range(30 if quick else 600):
+            sub = [n for n in RADIOMETRIC_POLYS if rng.random() < 0.5]
+            sicd_document(rng.choice(['pfa', 'rma']), sub or None, rng.random() < 0.5, rng.sample(SICD_OPTIONAL, rng.randint(1, 6)))
+
         nsidd, msidd = (8, 4) if quick else (80, 40)
         done = 0
         for i in range(nsidd):
-            prod = make_sidd(rng.getrandbits(40), tmpdir, 'MONO16I' if i == 0 else None)
+            prod = make_sidd(rng.getrandbits(40), tmpdir, 'MONO16I' if i == 0 else None, EXTRA[i % len(EXTRA)])
             r = do_product('sidd', prod, 'sidd')
             if done < msidd and not r['crash'] and r['verdict']:
                 done += 1
@@ -1174,6 +1541,14 @@ def run(tier):
     except Infra as e:
         ans = None
         broken.append('model driver does not build/run: ' + str(e)[:300])
+    try:
+        gen_ans = gen_drv.run()
+    except Infra as e:
+        gen_ans = None
+        broken.append('driver of the regenerated rules does not build/run: ' + str(e)[:300])
+    book.compare(ans, gen_ans)
+    fails += book.fails
+    disagreements += book.disagreements
     if ans is not None:
         for checks, real, counts, i in runner_jobs:
             ncorr += 1
@@ -1185,7 +1560,7 @@ def run(tier):
                 disagreements.append({'msg': f'runner verdict: model passes/strict {t[1:3]} for {spec_of(checks)}', 'case': {'checks': checks}})
         for what, i, payload in rule_jobs:
             ncorr += 1
-            t = ans[i].split()
+            t = ans[i].split() if isinstance(i, int) else []
             if what == 'cphd':
                 tag, real = payload
                 for (cname, text), mv, rv in zip(CPHD_RULES, t, real):
@@ -1203,6 +1578,20 @@ def run(tier):
                 tag, length = payload
                 if int(t[0]) != length or int(t[1]) != length or t[2] != '1' or t[3] != '1':
                     fails.append({'kind': 'product', 'key': 'nitf-fl', 'msg': f'NITF written by sarpy: FL / declared sizes do not give the file length {length}: model {ans[i]}', 'case': tag})
+            elif what == 'imgseg':
+                tag, orc, lines = payload
+                for j, w, l in zip(i, orc, lines):
+                    if (ans[j] == '1') != w:
+                        disagreements.append({'msg': f'image-segment rule: reference gives {ans[j]} for `{l}`, the documented rule gives {w}', 'case': tag})
+            elif what == 'desscan':
+                tag, kinds, w = payload
+                idx = [j for j, k in enumerate(kinds) if k in ('sicd', 'oldsicd')]
+                if (t[0] != 'N') != w or (w and int(t[0]) != idx[0]):
+                    disagreements.append({'msg': f'DES scan: reference gives {t[0]} for {kinds}, the documented rule gives {idx if w else "refusal"}', 'case': tag})
+            elif what == 'sizerule':
+                tag, w, l = payload
+                if (t[0] == '1') != w:
+                    disagreements.append({'msg': f'size rule: reference gives {t[0]} for `{l}`, the documented rule gives {w}', 'case': tag})
             elif what == 'fl-mutant':
                 if t[2] != '0':
                     disagreements.append({'msg': f'FL rule not falsified on {payload[0]}: {ans[i]}', 'case': payload[0]})
@@ -1212,36 +1601,55 @@ def run(tier):
     if never:
         chk.notes.append('mutations never applicable in this run: ' + ', '.join(never))
     stats['cphd_warning_checks'] = sorted(stats.get('cphd_warning_checks', []))
-    evaluations = stats.get('toy_checks', 0) + sum(v for k, v in stats.items() if k.startswith('products_')) + stats.get('mutants', 0) + len(rule_jobs)
+    evaluations = stats.get('toy_checks', 0) + sum(v for k, v in stats.items() if k.startswith('products_') and isinstance(v, int)) + stats.get('mutants', 0) + len(rule_jobs) + \
+        stats.get('boundary_files', 0) + stats.get('xml_cases', 0)
+    stats['rule_comparisons'] = book.n
+    stats['rule_truth_values_seen'] = book.counts
     chk.coverage.update({
         'evaluations': evaluations, 'distinct_nontrivial': len(seen),
         'rule': 'runner: toy ConsistencyChecker subclasses compiled from random op lists (need/want/precondition blocks nested up to the list length, dedents, '
                 'raising steps in 5 syntactic forms), 1-7 checks per class; products: physically self-consistent monostatic CPHD 1.1.0 (1-3 channels x CI2/CI4/CF8 x '
                 'AmpSF x 0-2 support arrays x one-call / piecewise writes), CPHD with arbitrary PVP content (structural rules only), SICD from the two example '
                 'documents (full frame; sub-images from SICDType.create_subset_structure) x 3 pixel types x 1-3 image segments, SIDD (1-2 products x MONO8I/MONO16I/RGB24I '
-                'x with/without SICD DES x segmentation); every applicable mutation of the catalogue on the products; distinct = op-shape classes + product '
-                'classes + (mutation, product class) pairs',
+                'x with/without SICD DES x segmentation); SICD / SIDD files with additional DES segments (user-defined binary DES, XML_DATA_CONTENT DES with another '
+                'document) in front of the SICD / SIDD DES, mutated like the others; SICD documents with every non-empty subset of the four radiometric scale-factor '
+                'polynomials (derived by sarpy), every listed optional part removed alone and random subsets of them; every applicable mutation of the catalogue on the products; two residue sweeps (64 consecutive '
+                'lengths of CollectorName, with / without support arrays: every pad 0..63 after the XML block; the sweep with support arrays also has pad 0 in '
+                'front of the PVP and SIGNAL blocks); header patches at the boundary of each block-order rule; CPHD XML documents (4 templates of tests/data) '
+                'with 0-3 edits drawn from 16 rule-directed edit kinds; distinct = op-shape classes + product classes + (mutation, product class) pairs + '
+                '(sweep, pads) + (boundary rule, support) + (template, edit kinds)',
         'catalogue_size': len(catalogue), 'catalogue': {m['name']: {'rule': m['rule'], 'lean': m.get('lean')} for m in CPHD_MUTATIONS + NITF_MUTATIONS},
         'mutation_outcomes': mut_stats, 'samples': samples + [j for j in [cphd_model_line(b'')] if j],
         'stats': stats, 'traces_validated_against_impl': ncorr, 'disagreements_checked': len(disagreements),
     })
     chk.assumptions += [
-        'the several hundred content rules of validation_checks.py / cphd_consistency.py are not modelled: they are exercised differentially only (valid products accepted, seeded content mutations flagged)',
+        'modelled content rules of cphd_consistency.py: the block-order / size / count / identifier / reference / polygon-index / polynomial / optional-parameter / box-ordering '
+        'rules listed in Spec/CheckerRules.lean (18 of them regenerated from the source by translate/gen_checker.py and bridged by theorem, the list-valued ones hand-modelled '
+        'and tied by correspondence); NOT modelled: every rule that compares floating-point PVP / geometry content with a tolerance (con.Approx), shapely polygon predicates, '
+        'the networkx identifier graph, schema validation, and validation_checks.py (SICD structure) - those are exercised differentially only',
+        'translated ordering rules on coordinates (X1Y1 < X2Y2) are stated over Int: finite doubles are order-embedded by a common power-of-two scale; version strings by an injective coding',
+        'the translator slices the statements a rule depends on and replaces the expressions that read the file / XML by parameters (exact source text); that those expressions read '
+        'the right field is checked by the correspondence on independently parsed files, not by the bridge',
         'a check method is modelled as a flat op list with block markers; Python control flow inside a check (loops, helper calls) is outside the model; the translation op list -> source is the harness\'s',
         '"accepted" for CPHD means no failed Error-level item (need / exception); failed wants (recommendations such as ImageGrid) are counted in stats, and make failures() non-empty (theorem want_failure_clears_flag)',
         'consistent CPHD products use the minimal 1.1.0 monostatic template only; geometry is computed by the harness from the CPHD 6.5 definitions',
-        'SICD / SIDD checkers are plain functions (no ConsistencyChecker): only their DES rule is modelled; the NITF FL rule is modelled and tied to the writer, neither checker documents it (probes reported, never a failure)',
+        'SICD / SIDD checkers are plain functions (no ConsistencyChecker): their DES rule, the image-segment rule (ICAT / PVTYPE / NBPP / band codes vs pixel type; tables regenerated '
+        'from checker and writer sources) and the size rule behind SICDReader construction are modelled; the NITF FL rule is modelled and tied to the writer, neither checker documents it (probes reported, never a failure)',
         'lxml schema validation, shapely, numpy memmap and the file system are trusted',
     ]
-    chk.coverage['level_note'] = 'proof of the runner semantics and of the arithmetic file-level rules; content rules differential only (partial)'
+    chk.coverage['level_note'] = ('proof of the runner semantics, of the file-level rules and of the arithmetic / structural content rules of the CPHD checker '
+                                  '(translated and bridged, or hand-modelled); floating-point / geometric content rules and validation_checks.py differential only (partial)')
     by_key = {}
-    for f in fails:
+    for f in sorted(fails, key=lambda f: 'mutation' in json.dumps(f.get('case', {}), default=str)):     # plain inputs before mutants
         by_key.setdefault(f.get('key') or f['msg'][:60], []).append(f)
     chk.coverage['failing_inputs'] = len(fails)
     chk.coverage['failure_keys'] = {k: len(v) for k, v in by_key.items()}
     unknown = [(k, v) for k, v in by_key.items() if not chk.known(k)]
+    # a sarpy-written file that is rejected first, then single rules, then the rest
+    unknown.sort(key=lambda kv: (0 if kv[0].startswith('reject:') else 1 if kv[0].startswith('rule:') else 2))
     for k, v in unknown[:5]:
-        chk.violation(v[0]['msg'], {'key': k, 'occurrences': len(v), 'case': v[0], 'replay_cmd': './check C18 --replay <this file>'}, True)
+        chk.violation(v[0]['msg'], {'key': k, 'occurrences': len(v), 'case': v[0], 'broken_obligations': broken[:10],
+                                    'replay_cmd': './check C18 --replay <this file>'}, True)
     if len(unknown) > 5:
         chk.notes.append(f'{len(unknown)} distinct failure keys, first 5 reported: ' + ', '.join(k for k, _ in unknown))
     if not unknown and (broken or disagreements):
@@ -1250,6 +1658,45 @@ def run(tier):
     elif disagreements or broken:
         chk.notes.append('also: ' + '; '.join(broken[:3] + [d['msg'][:200] for d in disagreements[:3]]))
     return chk.finish()
+
+
+def replay_rule(f, case, tmpdir):
+    """rule-level failing input: rebuild the input, run the real checker alone, print what it recorded for the rule"""
+    inp = case['input']
+    if inp == 'header-dict':
+        from lxml import etree
+        from sarpy.consistency.cphd_consistency import CphdConsistency
+        cc = CphdConsistency(etree.fromstring(c18rules.template_bytes(c18rules.TEMPLATES[0])), None, case['header'], None)
+        cc.check(['check_pad_header_xml'])
+        allr = cc.all()
+    elif inp == 'xml-document':
+        xml, done = c18rules.edited_xml(case['template'], case['edits'], case['edit_seed'])
+        out = os.path.join(tmpdir, 'replay.xml')
+        open(out, 'wb').write(xml)
+        print('edits applied:', done)
+        allr, crash = c18rules.run_selected(out, c18rules.XML_CHECKS)
+        print('constructor:', crash)
+    else:
+        inner = case.get('case', case)
+        pc = inner.get('product', inner)
+        prod = remake_cphd(pc, tmpdir)
+        buf = prod['buf']
+        if inp == 'header-patch':
+            buf = cphd_patch_header(buf, remove=(case['patch']['-'],)) if '-' in case['patch'] else cphd_patch_header(buf, case['patch'])
+            print('header patch:', case['patch'])
+        elif 'mutation' in inner:
+            m = [x for x in CPHD_MUTATIONS if x['name'] == inner['mutation']][0]
+            buf = m['apply'](prod, random.Random(inner['mutation_seed']), inner['variant']) if inner.get('variant') else m['apply'](prod, random.Random(inner['mutation_seed']))
+            print('mutation', m['name'])
+        out = os.path.join(tmpdir, 'replay.cphd')
+        open(out, 'wb').write(buf)
+        print('header:', cphdgen.parse_header(buf)[2], 'file length', len(buf))
+        allr, crash = c18rules.run_selected(out, c18rules.HEADER_CHECKS + c18rules.XML_CHECKS)
+        print('constructor:', crash)
+    chk_name = case.get('recorded_in')
+    print('rule:', case.get('rule'), 'inputs:', case.get('inputs', case.get('line')))
+    print('recorded by', chk_name, ':', json.dumps([(d['severity'], d['passed'], d['details'][:100]) for d in allr.get(chk_name, {}).get('details', [])])[:1500])
+    return 1
 
 
 def replay(path):
@@ -1267,13 +1714,23 @@ def replay(path):
             print(src)
             print('implementation:', real, counts, ' expected:', [oracle_runner(o)[0] for o in case['checks']])
             return 1
+        if f['kind'] in ('rule', 'nitf-rule') and case.get('input') in ('xml-document', 'header-dict', 'header-patch', 'cphd-file'):
+            return replay_rule(f, case, tmpdir)
         pc = case.get('product', case)
+        if pc['kind'] == 'sicd-xml':
+            meta, done = sicd_variant(pc['base'], pc['radiometric'], pc['noise'], pc['drops'])
+            out = os.path.join(tmpdir, 'replay.xml')
+            with open(out, 'wb') as fh:
+                fh.write(meta.to_xml_bytes())
+            print('optional parts removed:', done, ' radiometric polynomials kept:', pc['radiometric'])
+            print(json.dumps(run_nitf_checker('sicd', out), default=str)[:3000])
+            return 1
         if pc['kind'] == 'cphd':
-            prod = make_cphd(pc['seed'], tmpdir, pc.get('consistent', True))
+            prod = remake_cphd(pc, tmpdir)
         elif pc['kind'] == 'sicd':
-            prod = make_sicd(pc['seed'], pc['family'], tmpdir)
+            prod = make_sicd(pc['seed'], pc['family'], tmpdir, pc.get('extra_des'), pc.get('radiometric'), pc.get('drops', ()))
         else:
-            prod = make_sidd(pc['seed'], tmpdir, pc.get('force_first'))
+            prod = make_sidd(pc['seed'], tmpdir, pc.get('force_first'), pc.get('extra_des'))
         kind = pc['kind']
         buf, ext = prod['buf'], ('cphd' if kind == 'cphd' else 'nitf')
         if 'mutation' in case:
